@@ -13,6 +13,7 @@ import (
 	"time"
 
 	"github.com/nuetzliches/hookaido/internal/queue"
+	"github.com/nuetzliches/hookaido/internal/verifhook"
 )
 
 const (
@@ -89,6 +90,7 @@ func (s *Server) ServeHTTP(w http.ResponseWriter, r *http.Request) {
 		return
 	}
 
+	verifhook.Point("pull.after_authorize")
 	cleanPath := path.Clean(r.URL.Path)
 	op := path.Base(cleanPath)
 	endpoint := strings.TrimSuffix(cleanPath, "/"+op)
